@@ -52,7 +52,9 @@ def stamps_of(cfg, start, op):
         ms = rfmodel.file_ms(cfg, s)
         last = rfmodel.file_ms(cfg, s + ln - 1)
         while ms <= last:
-            if not out or out[-1] != ms:
+            lo, hi = rfmodel.window(cfg, ms)
+            # (at rates below one sample per file period most periods hold no sample and get no file)
+            if hi > lo and lo < s + ln and hi > s and (not out or out[-1] != ms):
                 out.append(ms)
             ms += cfg["F"]
     return out
